@@ -252,7 +252,7 @@ pub fn explore(ctx: &Ctx) {
 }
 
 pub fn replay(ctx: &Ctx, clause: &str, case: &Value) {
-    let c: PtCase = serde_json::from_value(case.clone()).expect("case");
+    let c: PtCase = serde_json::from_value::<PtCase>(case.clone()).map(PtCase::fix).expect("case");
     let mut l = Local::default();
     if clause.contains("never") || clause.contains("independence") || clause.contains("depends_only") || clause.contains("not_after") {
         judge_chain(ctx, &mut l, c.site, c.date, true);
